@@ -431,9 +431,9 @@ Section WorldProofs.
   Variable compile : cmode -> src -> cres tmpl.
   Variable loader : Z -> Z -> name -> lres.
   Variable builtin : rk -> reg.
-  Variable render : tmpl -> (rk -> Z -> option Z) -> obs.
+  Variable render : Z -> tmpl -> (rk -> Z -> option Z) -> obs.
   (* the renderer consults the registries only by looking names up *)
-  Hypothesis render_ext : forall t f g, (forall k nm, f k nm = g k nm) -> render t f = render t g.
+  Hypothesis render_ext : forall rc t f g, (forall k nm, f k nm = g k nm) -> render rc t f = render rc t g.
 
   Notation env := (env tmpl).
   Notation world := (world tmpl).
@@ -476,10 +476,10 @@ Section WorldProofs.
     intros V [S R]. split; auto. intros k nm. rewrite <- R. unfold regs_of. rewrite V. reflexivity.
   Qed.
 
-  Lemma show_get_rel h e se r : env_rel h e se -> show_get tmpl render h e r = s_show_get tmpl render se r.
+  Lemma show_get_rel h e se rc r : env_rel h e se -> show_get tmpl render h e rc r = s_show_get tmpl render se rc r.
   Proof. intros [S R]. destruct r; cbn [show_get s_show_get]; auto. Qed.
 
-  Lemma observe_rel h e se n now : wf (st _ e) -> env_rel h e se -> wobserve h e n now = sobserve se n now.
+  Lemma observe_rel h e se rc n now : wf (st _ e) -> env_rel h e se -> wobserve h e rc n now = sobserve se rc n now.
   Proof.
     intros W R. unfold observe, s_observe.
     destruct (get_refines_pair tmpl compile loader (st _ e) (sc se) n now W (proj1 R)) as (_ & _ & E).
@@ -576,7 +576,7 @@ Section WorldProofs.
     winv (fst (wstep w o)) /\ wrel (fst (wstep w o)) (fst (sstep sw o)) /\ snd (wstep w o) = snd (sstep sw o).
   Proof.
     intros I R. pose proof I as (A & W1 & W2). pose proof R as (R1 & R2).
-    destruct o as [so|k nm v|k nm| | |how n x|n now p]; cbn [world_step sworld_step].
+    destruct o as [so|rc n now|k nm v|k nm| | |how n x|n now p]; cbn [world_step sworld_step].
     - (* store operation *)
       destruct (step_refines tmpl compile loader (st _ (cur _ w)) (sc (scur sw)) so W1 (proj1 R1)) as (W' & S' & O').
       destruct (store_step tmpl compile loader false (st _ (cur _ w)) so) as [s' out].
@@ -590,6 +590,19 @@ Section WorldProofs.
         * intros k nm. cbn [cur hp scur sr]. rewrite regs_set_store. apply R1.
         * cbn [other hp sother]. exact R2.
       + subst out'. apply show_sout_rel. exact R1.
+    - (* render *)
+      destruct (get_refines_pair tmpl compile loader (st _ (cur _ w)) (sc (scur sw)) n now W1 (proj1 R1)) as (W' & S' & O').
+      destruct (get tmpl compile loader (st _ (cur _ w)) n now) as [s' r].
+      destruct (spec_get tmpl compile loader (sc (scur sw)) n now) as [c' r']. cbn [fst snd] in *.
+      split; [split; [|split]|split].
+      + eapply acc_ext; [exact A|]. intros j; unf; reflexivity.
+      + exact W'.
+      + exact W2.
+      + split; [split|].
+        * exact S'.
+        * intros k nm. cbn [cur hp scur sr]. rewrite regs_set_store. apply R1.
+        * cbn [other hp sother]. exact R2.
+      + subst r'. apply show_get_rel. exact R1.
     - destruct (reg_update_refines w sw k (fun r => a_insert r nm v) nm (Some v)) as [I' R']; auto using a_insert_upd.
     - destruct (reg_update_refines w sw k (fun r => a_remove r nm) nm None) as [I' R']; auto using a_remove_upd.
     - (* clone *)
@@ -680,9 +693,9 @@ Section WorldProofs.
 
   (* ---- theorems ---- *)
   Definition obs_agree (w : world) (sw : sworld) : Prop :=
-    (forall n now, wobserve (hp _ w) (cur _ w) n now = sobserve (scur sw) n now) /\
+    (forall rc n now, wobserve (hp _ w) (cur _ w) rc n now = sobserve (scur sw) rc n now) /\
     match other _ w, sother sw with
-    | Some e, Some se => forall n now, wobserve (hp _ w) e n now = sobserve se n now
+    | Some e, Some se => forall rc n now, wobserve (hp _ w) e rc n now = sobserve se rc n now
     | None, None => True
     | _, _ => False
     end.
@@ -690,9 +703,9 @@ Section WorldProofs.
   Lemma obs_agree_of w sw : winv w -> wrel w sw -> obs_agree w sw.
   Proof.
     intros (A & W1 & W2) (R1 & R2). split.
-    - intros n now. apply observe_rel; assumption.
+    - intros rc n now. apply observe_rel; assumption.
     - destruct (other _ w) as [e|]; destruct (sother sw) as [se|]; auto.
-      intros n now. apply observe_rel; assumption.
+      intros rc n now. apply observe_rel; assumption.
   Qed.
 
   Theorem world_refines_spec_proof : forall h,
@@ -707,15 +720,16 @@ Section WorldProofs.
 
   Lemma sstep_keeps_other sw o : rebinds o = false -> sother (fst (sstep sw o)) = sother sw.
   Proof.
-    destruct o as [so|k nm v|k nm| | |how n x|n now p]; cbn [rebinds sworld_step]; intros H; try discriminate; auto.
+    destruct o as [so|rc n now|k nm v|k nm| | |how n x|n now p]; cbn [rebinds sworld_step]; intros H; try discriminate; auto.
     - destruct (spec_step tmpl compile loader (sc (scur sw)) so); reflexivity.
+    - destruct (spec_get tmpl compile loader (sc (scur sw)) n now); reflexivity.
     - destruct (spec_get tmpl compile loader (sc (scur sw)) n now); reflexivity.
   Qed.
 
   Theorem clone_isolated_proof : forall h o, rebinds o = false ->
     match other _ (wfinal h), other _ (fst (wstep (wfinal h) o)) with
     | Some e, Some e' =>
-        forall n now, wobserve (hp _ (fst (wstep (wfinal h) o))) e' n now = wobserve (hp _ (wfinal h)) e n now
+        forall rc n now, wobserve (hp _ (fst (wstep (wfinal h) o))) e' rc n now = wobserve (hp _ (wfinal h)) e rc n now
     | None, None => True
     | _, _ => False
     end.
@@ -726,7 +740,7 @@ Section WorldProofs.
     rewrite (sstep_keeps_other _ _ Ho) in G'.
     destruct (other _ (wfinal h)) as [e|]; destruct (other _ (fst (wstep (wfinal h) o))) as [e'|];
       destruct (sother (sfinal h)) as [se|]; try contradiction; auto.
-    intros n now. rewrite G', G. reflexivity.
+    intros rc n now. rewrite G', G. reflexivity.
   Qed.
 
   (* two worlds hold the same contents *)
@@ -776,7 +790,7 @@ Section WorldProofs.
     (snd (wrun w (WAdhoc how n x :: h)) = (snd (wstep w (WAdhoc how n x)) :: snd (wrun w h))) /\
     (snd (wstep w (WAdhoc how n x)) =
       (match compile (adhoc_mode how (cfg _ (st _ (cur _ w)))) x with
-       | COk t => render t (regs_of tmpl (hp _ w) (cur _ w))
+       | COk t => render 0 t (regs_of tmpl (hp _ w) (cur _ w))
        | CErr c => o_err c
        end)).
   Proof.
